@@ -707,6 +707,9 @@ class Engine:
                     return cur
                 return Ref(val=self._update(fr, cur.val, rest, val))
             if isinstance(cur, Sym):
+                if not rest and isinstance(cur.tag, tuple) and cur.tag and cur.tag[0] == "ret":
+                    # `*f(..) = v`: a write through a reference handed out by an uninterpreted call (status_mut(), uri_mut(), ...)
+                    self.events.append(Event("store", "*" + str(cur.tag[1]), [cur, val], None, None, rargs=[cur, self.peel(val) if hasattr(self, "peel") else val]))
                 return cur.with_child("*", self._update(fr, cur.child("*"), rest, val))
             raise Inconclusive("write through %r" % (cur,))
         if p[0] == "field":
@@ -725,6 +728,17 @@ class Engine:
                 return cur.with_child(key, self._update(fr, cur.child(key, rest[0][2]), rest[1:], val))
             if isinstance(cur, Agg):
                 return self._update(fr, cur, rest, val)
+        if p[0] == "index" and isinstance(cur, Sym):
+            key = ("ix", repr(self.read_local(fr, p[1])))
+            return cur.with_child(key, self._update(fr, cur.child(key), rest, val))
+        if p[0] == "constindex":
+            if isinstance(cur, Sym):
+                key = ("i", p[1])
+                return cur.with_child(key, self._update(fr, cur.child(key), rest, val))
+            if isinstance(cur, Agg) and p[1] < len(cur.fields):
+                f = list(cur.fields)
+                f[p[1]] = self._update(fr, f[p[1]], rest, val)
+                return Agg(cur.name, f, cur.variant, cur.vindex, cur.kind, cur.body_path, cur.names)
         raise Inconclusive("write projection %r on %r" % (p, cur))
 
     # ---------------- rvalues ----------------
@@ -941,6 +955,13 @@ class Engine:
         r = self.fresh(("ret", callee), ret_ty)
         ev = Event("call", callee, args, r, site, rargs=self.snapshot(args))
         self.events.append(ev)
+        mm = re.search(r"(?:Option::(is_none|is_some)|Result::(is_ok|is_err))$", callee)
+        if mm and len(args) == 1 and isinstance(r, Sym):
+            # a question about the discriminant, not an unknown: the answer (still one trace event) agrees with the value's variant,
+            # so two is_none() on one value agree with each other and with a later match
+            d = self.discr_of(args[0])
+            if d is not None:
+                self.assume(r.scalar("bool") == (d == z3.IntVal({"is_none": 0, "is_some": 1, "is_ok": 0, "is_err": 1}[mm.group(1) or mm.group(2)])))
         if self.event_hook is not None:
             self.event_hook(self, ev)
         return r
